@@ -1247,6 +1247,8 @@ class PandasModelBase(
             res = res.sort_values(
                 by=blocks_in.record_keys, inplace=False, ignore_index=True
             )
+        # the declared columns in the declared order (blocks come in data order, a level no row carries is all missing)
+        res = res.reindex(columns=blocks_in.row_columns)
         return res
 
     def rowrecs_to_blocks(
@@ -1319,6 +1321,7 @@ class PandasModelBase(
             res = res.sort_values(
                 by=blocks_out.control_table_keys, inplace=False, ignore_index=True
             )
+        res = res.loc[:, blocks_out.block_columns]  # the declared column order
         return res
 
     # expression helpers
